@@ -466,3 +466,91 @@ pub fn damaged_frame(base: &Argv, line: u16, bad: &Bad) -> (Vec<u8>, usize) {
     };
     (bytes, li)
 }
+
+// ---------------------------------------------------------------------------------------
+// scale class: deep pipelines of small commands, long MULTI bodies, large single frames
+// ---------------------------------------------------------------------------------------
+
+/// Pipeline depths aimed at powers of two +- 1 (internal batch limits live there).
+pub const DEPTHS: &[usize] = &[63, 64, 65, 127, 128, 129, 255, 256, 257, 300, 511, 512, 513, 1000, 1023, 1024, 1025, 4097];
+
+fn small_cmd() -> BoxedStrategy<Argv> {
+    prop_oneof![
+        4 => Just(vec![b("PING")]),
+        3 => (0u8..4).prop_map(|i| vec![b("GET"), format!("k{}", i).into_bytes()]),
+        3 => (0u8..4).prop_map(|i| vec![b("INCR"), format!("n{}", i).into_bytes()]),
+        2 => (0u8..4, 0u8..10).prop_map(|(i, v)| vec![b("SET"), format!("k{}", i).into_bytes(), vec![b'0' + v]]),
+        1 => (0u8..4).prop_map(|i| vec![b("RPUSH"), format!("l{}", i).into_bytes(), b("x")]),
+        1 => Just(vec![b("ECHO"), b("e")]),
+        1 => Just(vec![b("get"), b("k0")]),
+    ]
+    .boxed()
+}
+
+/// Command lists of the scale class (explicit, like every other case).
+pub fn deep_command_list() -> BoxedStrategy<Vec<Argv>> {
+    let depth = any::<u16>().prop_map(|i| DEPTHS[(i as usize * DEPTHS.len()) >> 16]);
+    let palette = proptest::collection::vec(small_cmd(), 1..5);
+    let cyc = |pal: &Vec<Argv>, n: usize| -> Vec<Argv> { (0..n).map(|i| pal[i % pal.len()].clone()).collect() };
+    prop_oneof![
+        // flat pipeline of `depth` small commands
+        6 => (depth.clone(), palette.clone()).prop_map(move |(n, pal)| cyc(&pal, n)),
+        // a few commands, MULTI, a long body, EXEC, a few commands
+        3 => (prop_oneof![Just(255usize), Just(256), Just(257), Just(300), Just(600)], palette.clone(), 0usize..3)
+            .prop_map(move |(n, pal, pre)| {
+                let mut v = cyc(&pal, pre);
+                v.push(vec![b("MULTI")]);
+                v.extend(cyc(&pal, n));
+                v.push(vec![b("EXEC")]);
+                v.push(vec![b("PING")]);
+                v
+            }),
+        // large single frames between small ones
+        3 => (
+            prop_oneof![Just(65_535usize), Just(65_536), Just(65_537), Just(1usize << 20), Just(200_000)],
+            palette,
+            0usize..4,
+            any::<u8>()
+        )
+            .prop_map(move |(size, pal, pre, fill)| {
+                let mut v = cyc(&pal, pre);
+                v.push(vec![b("SET"), b("big"), vec![b'a' + fill % 26; size]]);
+                v.push(vec![b("STRLEN"), b("big")]);
+                v.push(vec![b("GET"), b("big")]);
+                v.push(vec![b("APPEND"), b("big"), b("tail")]);
+                v.extend(cyc(&pal, 3));
+                v
+            }),
+    ]
+    .boxed()
+}
+
+/// Delivery of the scale class: whole (read buffer larger than the stream), 8192-byte reads,
+/// small reads, a few cuts; never byte-wise (cost only).
+pub fn deep_seg() -> BoxedStrategy<Seg> {
+    prop_oneof![
+        4 => Just(Seg::Whole),
+        2 => Just(Seg::Fixed(8192)),
+        1 => Just(Seg::Fixed(4096)),
+        1 => Just(Seg::Fixed(100)),
+        1 => Just(Seg::PerFrame),
+        2 => proptest::collection::vec(any::<u16>(), 1..4)
+            .prop_map(|uniform| Seg::Cuts { uniform, aimed: vec![], frame_ends: false }),
+    ]
+    .boxed()
+}
+
+pub fn deep_cfg() -> BoxedStrategy<Cfg> {
+    (
+        prop_oneof![Just(1u64), Just(60), Just(1_000_000_000)],
+        prop_oneof![Just(1u32), Just(2), Just(6), Just(16)],
+        prop_oneof![3 => Just(1u32 << 21), 3 => Just(8192), 1 => Just(64)],
+    )
+        .prop_map(|(m, t, r)| Cfg {
+            min_pipeline_buffer: m,
+            batch_threshold: t,
+            read_buffer_size: r,
+            max_buffer_size: 0,
+        })
+        .boxed()
+}
